@@ -9,9 +9,10 @@ META = {
     "text": "TLC explores every interleaving of the reader's snapshot-acquisition steps (IdmServer::proxy_read -> "
             "QueryServer::read -> Backend::read -> IdlArcSqlite::read, SQLite snapshot fixed at the first statement) with the "
             "writer's publication steps (IDM commit -> QueryServer commit -> backend commit), at the granularity of the H3 pause "
-            "points and, model-only, of the individual statements, and returns every reachable snapshot vector. For every "
-            "distinct vector of probe versions witness schedules are replayed on a real file-backed server (pool 4) with two OS "
-            "threads and the pause controller; the reader evaluates eight probes (schema, domain name, access decision, OAuth2 "
+            "points and, model-only, of the individual statements, and returns every reachable snapshot vector. Witness "
+            "schedules for every distinct vector of probe versions, plus the two 'atomic' families (whole reader between any two "
+            "writer steps, whole writer between any two reader steps), are replayed on a real file-backed server (pool 4) with "
+            "two OS threads and the pause controller; the reader evaluates eight probes (schema, domain name, access decision, OAuth2 "
             "client, a cached entry, an uncached entry, name lookup, index search) twice; TLC judges each observation with L1 "
             "(one version everywhere, repeatable) and checks that the step model explains it.",
     "note": "schedules are exhaustive in the model (one reader, one committing writer); on the real code one to a few witness "
@@ -89,7 +90,7 @@ def run(tier, replay):
             if s not in chosen:
                 chosen.append(s)
         covered = set(allsched[s] for s in chosen if s in allsched)
-        per = 1 if quick else 6
+        per = 1 if quick else 12
         for vec in sorted(byvec):
             if quick and vec in covered:
                 continue
